@@ -6,7 +6,7 @@ import random
 from multiprocessing import Pool
 
 from . import tables, toy
-from .core import Ctx, NCPU
+from .core import Ctx, Guarded, NCPU
 
 # name -> q, b, |E(Fq)|, |E'(Fq^2)|   (q = 3 mod 8, both orders odd; found by search, re-checked by TLC)
 INSTANCES = {
@@ -260,7 +260,7 @@ def build(tier, seed):
         for k in range(0, len(items), 1500):
             work.append((ji, (name, g, op, items[k:k + 1500])))
     with Pool(NCPU) as pool:
-        parts = pool.map(_wrap, work, chunksize=1)
+        parts = pool.map(Guarded(_wrap), work, chunksize=1)
     by = {}
     for (ji, _), rows in zip(work, parts):
         by.setdefault(ji, []).extend(rows)
